@@ -514,7 +514,7 @@ def run_case(ctx, drv, cfg, split, pinned, scratch):
     # --- correspondence with the Lean model on the recorded event trace
     if drv is not None:
         trace_correspondence(ctx, drv, cp, case, tr, B, R, C, n_pre_events, views_B, views_B_after_save, views_R, views_C,
-                             views_R_end, names_before, names_after, clone_path, cfg_eff)
+                             views_R_end, names_before, names_after, clone_path, cfg_eff, sess, logs)
 
 
 def _js(v):
@@ -530,7 +530,7 @@ def _views_json(views):
 # event trace → Lean model
 
 def trace_correspondence(ctx, drv, cp, case, tr, B, R, C, n_pre, views_B, views_B_saved, views_R, views_C, views_R_end,
-                         names_before, names_after, clone_path, cfg):
+                         names_before, names_after, clone_path, cfg, sess=None, logs=None):
     evs_B = tr.of(B)
     evs_R = tr.of(R)
     evs_C = tr.of(C)
@@ -636,6 +636,10 @@ def trace_correspondence(ctx, drv, cp, case, tr, B, R, C, n_pre, views_B, views_
                 break
         if not ans["ok"]["resume_eq"]:
             raise HarnessError("model: resume_eq violated on a concrete instance")
+    # (e) session histories: the call-level model
+    if cfg.get("session") and sess is not None:
+        pre_calls, post_calls = cp.split_program(cfg["calls"], case["split"][0], case["split"][1])
+        session_correspondence(ctx, drv, cp, case, B, pre_calls, post_calls, sess, logs)
     # (d) attribute projection of save: names loaded = names saved minus the skip list
     skip = [] if cfg["raw"] else ["_dset", "dset"]
     ans = drv.ask({"op": "project", "names": names_before + ([] if cfg["raw"] else ["_dataset_metadata"]), "skip": skip})
@@ -646,6 +650,105 @@ def trace_correspondence(ctx, drv, cp, case, tr, B, R, C, n_pre, views_B, views_
     expect = sorted(ans["ok"] + ([] if cfg["raw"] else ["_dset"]))   # from_file re-attaches the dataset it is given
     if expect != names_after:
         ctx.disagree("trace-projection", case, expect, names_after, "attribute names after from_file differ from the skip-list projection")
+
+
+OPT_KWARGS = {"type", "lr", "momentum", "weight_decay", "betas"}
+SCHED_TYPES = ["cyclic", "plateau", "exp", "gamma", "linear", "none"]
+
+
+def abstract_call(cp, p, c):
+    """the abstract description of one real reconstruct() call that Model/CheckpointSession.lean executes: which
+    argument is well-formed, in the order the dicts are given.  The classification reads only the call's arguments
+    and the constraint-key tables of the real model classes."""
+    b = c.get("batch") if "batch" in c else None
+    try:
+        batch_ok = b is None or int(round(b)) > 0
+    except (TypeError, ValueError):
+        batch_ok = False
+    cons = []
+    for cat, d in (c.get("cons") or {}).items():
+        keys = set(cp.model_of(p, cat).DEFAULT_CONSTRAINTS) if cat in cp.KEYS else set()
+        cons.append([cat, [[k, k in keys] for k in d]])
+    opt = None
+    if c.get("opt_list") is not None:
+        opt = [[k, "ok"] for k in c["opt_list"]]
+    elif c.get("opt") is not None:
+        opt = []
+        for k, v in c["opt"].items():
+            t = v.get("type", "adam")
+            if t == "none":
+                kind = "none"
+            elif t.startswith("class:") or t.lower() in ("adam", "adamw", "sgd"):
+                kind = "ok" if set(v) <= OPT_KWARGS else "badkw"
+            else:
+                kind = "unknown"
+            opt.append([k, kind])
+    sched = None
+    if c.get("sched") is not None:
+        sched = []
+        for k, v in c["sched"].items():
+            if not v:
+                kind = "empty"
+            elif "type" not in v:
+                kind = "notype"
+            elif v["type"].lower() in SCHED_TYPES:
+                kind = "none" if v["type"].lower() == "none" else "ok"
+            else:
+                kind = "unknown"
+            sched.append([k, kind])
+    lt = c.get("loss_type")
+    loss_ok = (not lt) or ("amplitude" in lt) or ("intensity" in lt) or lt == "poisson"
+    return {"batchOk": bool(batch_ok), "reset": bool(c.get("reset")), "cons": cons, "opt": opt, "sched": sched, "lossOk": bool(loss_ok),
+            "n": int(c["n"])}
+
+
+def session_correspondence(ctx, drv, cp, case, B, pre, post, sess, logs):
+    """the call-level model (Model/CheckpointSession.lean: reconstruct's argument processing with every branch that
+    raises part-way, reset_recon, set_optimizer / set_scheduler / remove_optimizer, the iteration count and LR-history
+    lengths) against the real session: after EVERY call of the history — the saved object before the checkpoint, the
+    RELOADED object after it (theorem resume_eq_history_checkpoint: the model carries on from the same state) —
+    raised or not, which models have an optimizer / scheduler / stored configuration, whether each optimizer is bound
+    to the live parameters, which parameters are new tensor objects, iteration count, LR-history keys/lengths"""
+    calls = pre + post
+    views = sess["pre"] + sess["post"]
+    outcomes = logs["source"][:len(pre)] + logs["reload"]
+    if len(views) != len(calls):
+        raise HarnessError("session views out of step with the calls")
+    # which parameters reset() re-creates as new tensors: the object and the probe array (`nn.Parameter(initial.clone())`);
+    # probe tilt, scan positions and descan shifts are written in place (`self._x.data = initial`)
+    sizes = {k: len(cp.opt_params(cp.model_of(B, k))) for k in cp.KEYS}
+    keep = {"object": [False] * sizes["object"], "probe": [True] * (sizes["probe"] - 1) + [False], "dataset": [True] * sizes["dataset"]}
+    req = {"op": "session", "keep": [[k, keep[k]] for k in cp.KEYS], "calls": [abstract_call(cp, B, c) for c in calls]}
+    ans = drv.ask(req)
+    if "err" in ans:
+        raise HarnessError(f"driver: {ans}")
+    ctx.count()
+    ctx.dist["trace:session"] += 1
+    prev = {k: list(range(n)) for k, n in sizes.items()}
+    for i, (c, st, view, out) in enumerate(zip(calls, ans["ok"]["steps"], views, outcomes)):
+        ctx.dist["trace:session:calls"] += 1
+        ctx.dist[f"trace:session:raised={st['raised']}"] += 1
+        model = {"raised": st["raised"], "num_iters": st["num_iters"], "lrs": {k: n for k, n in st["lrs"]}}
+        impl = {"raised": out is not None, "num_iters": view["num_iters"], "lrs": dict(view["lrs"])}
+        for m in st["models"]:
+            k = m["key"]
+            # across the checkpoint every tensor is a new object in the real session; the model keeps identities
+            at_reload = (i == len(pre))
+            model[k] = {"opt": m["opt"], "sched": m["sched"], "bound": m["bound"], "cfg": m["cfg"], "scfg": m["scfg"]}
+            impl[k] = {x: view[k][x] for x in ("opt", "sched", "bound", "cfg", "scfg")}
+            # (which parameters reset() re-creates as new tensor objects is an implementation detail as long as every
+            # optimizer ends up bound to the live ones: it is recorded in the evidence, not compared)
+            if not at_reload and view[k]["kept"] is not None:
+                ctx.dist[f"trace:session:reset_keeps_tensor_identity:{k}={[i in set(prev[k]) for i in m['ids']] == view[k]['kept']}"] += int(bool(c.get("reset")))
+            if view[k]["sched_bound"] is False:
+                impl[k]["sched"] = "bound-to-a-discarded-optimizer"
+            prev[k] = m["ids"]
+        if not st["inv"]:
+            raise HarnessError("model: record_iter_inv violated on a concrete session")
+        if model != impl:
+            ctx.disagree("trace-session", dict(case, at_call=i, call=c), model, impl,
+                         "session state after a reconstruct() call differs from Model.Checkpoint.exec")
+            break
 
 
 def _stateless(cfg, key):
@@ -827,7 +930,7 @@ def run(ctx):
     drv = None if os.environ.get("C05_NO_DRIVER") else Driver("C05")
     rng = ctx.rng.fork(5)
     n_cfg = ctx.n(34, 150)
-    budget = 165.0 if not ctx.thorough() else 1050.0
+    budget = 155.0 if not ctx.thorough() else 1050.0
     if ctx.search_mode:
         budget *= 2
     t0 = time.time()
